@@ -219,41 +219,70 @@ CHECKS = {
              'without re-positioning, Last/Prev over a multi-page bucket that had deletions in the same transaction (bbolt 1.3.11 behaviour, DESIGN 9.3). '
              "Observation (not judged: the property is silent on error values): db.Batch returns bbolt's errors unconverted. No axioms (coqchk: none)."),
     "C15": dict(
-        text="Model Sync/Sync.v of connectBlock / disconnectBlock / addRelevantTx / PutSyncedTo (window map with pruning at MaxReorgDepth) / the syncWithChain "
-             "rollback loop / catchUpHashes. Ten theorems: for every valid evolution (reorg of any depth whose lowest replaced block is inside the stored "
-             "window, wallet txs anywhere in the new blocks, notified before or after BlockConnected) and every stream obtained from its notifications by "
-             "inserting stale, repeated or future disconnects and redundant tx notifications, no handler fails and afterwards synced-to = backend tip, every "
-             "height in [lo, tip] stores the best chain's hash, and no tx record names a block off the best chain (lo = max(start of following, highest tip "
-             "- MaxReorgDepth + 1)); the same after every single notification and over any number of evolutions; start-up: the rollback loop terminates at "
-             "the last common block, synced-to becomes that block, the store is rolled back from exactly that height + 1, then the rescan brings the wallet to "
-             "the backend chain; C15_refuted_at_pinned for the pre-fix handler. Premise regenerated from source by a go/ast extractor: "
-             "disconnect_records_parent_hash = true (eq_refl), MaxReorgDepth. Tie to the code: real wallet over simchain, random evolutions (reorg depth 1-8, "
-             "wallet txs in replaced blocks, stale/repeated disconnects, offline periods through the real ClientConnected -> syncWithChain -> Rescan path, one "
-             "case beyond MaxReorgDepth), SyncedTo/BlockHash/RangeTransactions observed after every notification. The clause 'no transaction confirmed off the best "
-             "chain' is also proved on the model of the REAL store (Sync/SyncStore.v): the handlers' store history is a run of the abstract validating node of "
-             "Tx/Node.v, hence chain-consistent; the ledger's confirmed facts are exactly the members of the placed best chain, tx_details reports only such blocks "
-             "(via C13) and balance and spendable set are the ledger's (via C01) - C15_store_confirmed_only_on_best_chain, C15_wallet_balance_is_ledger_balance.",
-        note="Defect S1 found and repaired (fix: 8ce830b); replay runs first from corpus/C15. The transaction store is only the projection (txid, confirming "
-             "block)/unconfirmed here (conflicts are C01/C02's subject). Start-up hypotheses: backend tip >= wallet synced height, fork point inside the window. "
-             "Observations not flagged: a backend chain shorter than the wallet's synced height makes syncWithChain retry forever; stale hash entries above the "
-             "tip are never removed. int32 wrap outside the model. No axioms."),
+        text='Model Sync/Sync.v of connectBlock / disconnectBlock / addRelevantTx / PutSyncedTo (window map with pruning at MaxReorgDepth) / syncWithChain '
+             '(first synchronisation of a wallet whose birthday block is unknown: re-fetch the stamp at the located height, SetSyncedTo and '
+             'SetBirthdayBlock in one transaction; the rollback loop; the birthday-reset branch when the rollback crosses the birthday block; one '
+             'waitForSync attempt as `startup first backend hdr loc`) / catchUpHashes. 22 theorems: for every valid evolution (reorg of any depth whose '
+             'lowest replaced block is inside the stored window, wallet transactions anywhere in the new blocks, notified before or after BlockConnected) '
+             'and every stream obtained from its notifications by inserting stale, repeated or future disconnects, redundant transaction notifications and '
+             'rescan notifications for already-reached heights, no handler fails and afterwards synced-to = backend tip, every height in [lo, tip] stores '
+             "the best chain's hash, and no transaction record names a block off the best chain (lo = max(start of following, highest tip - MaxReorgDepth "
+             '+ 1)); the same after every single notification and over any number of evolutions; start-up: C15_first_start (no birthday block, located '
+             'height anywhere in [0, tip]: the attempt succeeds, synced-to = birthday = the located block, the wallet is consistent with the backend chain '
+             'cut at that height) and C15_first_sync_follows (after the rescan: consistent from max(located height, tip - MaxReorgDepth + 1), '
+             'chain_synced); C15_startup_rollback (terminates at the last common block, synced-to becomes that block, the store is rolled back from '
+             'exactly that height + 1, incl. a rollback across the birthday block, whose reset cannot fail) and C15_startup_birthday_stays_on_chain; three '
+             "stated _partial theorems for what the code does NOT give: backend tip below the wallet's synced-to height (nothing happens until an attempt "
+             'finds the backend at least as high), fork point below the stored window (every attempt fails unchanged; the property promises nothing '
+             'outside the window), and a REPEATED first synchronisation; C15_refuted_at_pinned for the pre-fix disconnect handler. Premise regenerated '
+             "from source by a go/ast extractor (probe fallback): disconnect_records_parent_hash = true, MaxReorgDepth. The clause 'no transaction "
+             "confirmed off the best chain' is also proved on the model of the REAL store (Sync/SyncStore.v: the handlers' store history is a run of the "
+             'abstract validating node of Tx/Node.v, hence chain-consistent; C15_store_confirmed_only_on_best_chain, C15_wallet_balance_is_ledger_balance '
+             'via C13/C01). Tie to the code: real wallet over the simulated backend; about half the cases drive every notification through the REAL '
+             'handleChainNotifications goroutine (unbuffered channel + barrier value), incl. FilteredBlockConnected, RelevantTx, RescanProgress and '
+             'RescanFinished; reorg depth up to 25, wallet transactions in replaced blocks, stale/repeated disconnects; start-up always through the real '
+             'SynchronizeRPC -> ClientConnected -> birthdaySanityCheck -> waitForSync -> syncWithChain path with first synchronisations, rollbacks across '
+             'the birthday block, a lower backend, a fork below the window; SyncedTo/BlockHash/RangeTransactions observed after every notification.',
+        note='Defect S1 found and repaired (fix: 8ce830b); replay runs first from corpus/C15. What decides: synced-to height and hash, ChainSynced, hashes '
+             "in [lo, synced height], confirmed and unconfirmed records, whether a start-up attempt fails; a handler's error flag, the synced-to "
+             "timestamp, hashes outside [lo, tip] and the birthday block are counted as drift only. Defect outside the property's quantifier (needs a "
+             'backend failure), predicted by the model (C15_first_sync_repeated_partial) and reproduced (fixed input 1506): when NotifyBlocks or the '
+             'rescan request errors after the first transaction of a first synchronisation committed, waitForSync retries with the same nil birthday stamp '
+             "and SetSyncedTo(birthday) then fails PutSyncedTo's predecessor check forever (birthday height > 1) until the backend reconnects or the "
+             'wallet restarts. Not modelled: a stored but unverified birthday block relocated by birthdaySanityCheck; a rescan notification running ahead '
+             "of its blocks' connect notifications; wallet transactions that conflict with each other (C01/C02's subject: the store is the projection "
+             '(txid, confirming block)/unconfirmed here). int32 wrap outside the model. No axioms.'),
     "C10": dict(
-        text="Theorem leg (Properties/C10.v): for every program of a free-monad language over a bucket store (Read, one Write per mutating call, Fail, Bind - "
-             "covering sequences, conditionals on reads, bounded loops, fuel recursion), every store s and every fault position k: the run reports an error, or "
-             "k >= writes(op,s) and result, store and call count equal the fault-free run (never Ok after a strict prefix of the writes); every k < writes "
-             "yields Err Injected at call k; discarding the working copy restores the store; a retry equals the clean run; memory-after-disk operations restore "
-             "memory too. Instantiated by transcriptions (order and count of every Put/Delete/CreateBucket per branch) of the wtxmgr events and the waddrmgr disk "
-             "parts. Premise all_propagated = true from Generated/ErrFlow.v (265 error-carrying call sites of wtxmgr and waddrmgr classified by a go/ast+go/types "
-             "extractor; 'dropped' includes `if err != nil { return nil }`), discharged by eq_refl. Dynamic leg: for states of generated histories of the real "
-             "store and the real manager, every mutating operation is probed on its own copy of the bbolt file and for EVERY k in 1..n the k-th mutating walletdb "
-             "call fails: error reported, bucket tree after rollback equal to before, every query answers as before, retry equals the clean run; the observed n "
-             "and error pattern must equal the Coq program on the model state.",
-        category="proof",
-        note="One swallowed write error found and repaired (fix: 25cbf4f, replay runs first from corpus/C10). PARTIAL: the 'in-memory managers answer as before' "
-             "clause is proved only for memory-after-disk operations; for the real managers it is exercised, and 19 (kind, site) pairs caused by eager in-memory "
-             "updates (RenameAccount, SetSyncedTo, Extend*, Next* address cache, Import*, SetBirthday, ChangePassphrase, NewScopedKeyManager; 6 of them as "
-             "retry_differs consequences) are recorded known findings (same root cause as C08's S4/S10/S11). One failing write per database transaction; commit "
-             "failures are C08/C11. Trusted: the hand transcription (tie = exact write-count correspondence), go/ast extractor, faultdb, bbolt. No axioms."),
+        text='Theorem leg (Properties/C10.v, 17 theorems + 31 per-operation facts): programs of a free-monad language over a bucket store (Read, one Write '
+             'per mutating call, Fail, Bind, and `Call site p dflt` - a call whose error the caller treats according to the DISPOSITION of that call site: '
+             'Propagated, DroppedReturn, DroppedContinue, DeferredDrop, LoggedReturn, LoggedContinue, Unknown). The dispositions are read from '
+             'Generated/ErrFlow.v (266 error-carrying call sites of wtxmgr and waddrmgr classified by a go/ast+go/types extractor; only an error that '
+             'reaches the caller counts as propagated - logged-and-returned-nil, `ok := f() == nil`, shadowed err, deferred calls and unrecognised shapes '
+             'do not). Every operation of the transaction store and of the address manager is transcribed one definition per Go function with one `Call '
+             '"<pkg>:<func>><callee>"` per call site; Fault/FaultSites.v proves which sites each operation uses; the 31 facts C10_sites_<Op> (all its '
+             'sites are Propagated in the table of THIS tree) are decided by computation - a dropped error breaks exactly the obligations of the '
+             'operations using that site, and the model then predicts the failing inputs (`Ok` after a strict prefix of the writes), which the check '
+             'replays on the implementation. Under that premise, for every program, store and fault position k: the run reports an error, or k >= writes '
+             'and result, store and call count equal the fault-free run; every k < writes yields the injected error at call k; discarding the working copy '
+             'restores the store; a retry equals the clean run (dropped_site_refutes shows the premise is needed). Memory clause: a model of in-memory '
+             'deltas with three step shapes regenerated from the source per operation (AfterOwnWrites, AtCommit, BeforeOwnWrites); '
+             'C10_memory_after_disk_operations for every operation and C10_failure_in_first_call_leaks_nothing (a fault inside a single-call transaction '
+             'leaves memory as before) for every operation except SetBirthday (excluded by its regenerated shape). Dynamic leg: for states of generated '
+             'histories of the real store and the real manager (one in four with the manager locked) every mutating operation - incl. PutTxLabel, '
+             'ConvertToWatchingOnly, ImportPublicKey, witness/taproot script imports, watch-only accounts, waddrmgr.Create (94 writes) and wtxmgr.Create '
+             '(12) on a fresh file - is probed on its own copy of the bbolt file and for EVERY k in 1..n the k-th mutating walletdb call fails: error '
+             'reported, bucket tree after rollback equal to before, every query answers as before, retry equals the clean run. Correspondence: the '
+             "committed state decoded from the bbolt file into the model's abstract rows, the rows the clean run changes, the per-k error pattern and the "
+             'categories of differing memory queries (observed subset of predicted); a differing write COUNT alone is accepted when all sites propagate '
+             "and the implementation's own sweep over all its positions is clean.",
+        note='One swallowed write error found and repaired (fix: 25cbf4f, replay runs first from corpus/C10). KNOWN FINDINGS: 28 (kind, site) pairs, one '
+             'family - in-memory state of the address manager updated before commit survives a rollback after a failing LATER write of the same database '
+             'transaction (RenameAccount, SetSyncedTo, Extend*, the address cache in Import*, ChangePassphrase, NewScopedKeyManager, '
+             'ConvertToWatchingOnly, watch-only account creation) or, for SetBirthday, a failing OWN write; several surface as retry_differs. Sites end in '
+             ":own-write or :later-write, so the same eager update moved in front of an operation's own writes is a new VIOLATION, not a known finding. "
+             "Same root cause as C08's K (moving the updates to OnCommit would change what later reads inside the same transaction see). One failing write "
+             'per database transaction; commit failures are C08/C11. Ciphertexts are compared by presence only. Trusted: the hand transcription (tie = '
+             'abstract state dump + per-k pattern), go/ast extractors (dispositions, memory shapes), faultdb, bbolt. No axioms (coqchk: none).'),
     "C06": dict(
         text='16 theorems (Print Assumptions closed; coqchk: none) over the model Select/Eligible.v of findEligibleOutputs + txToOutputs: a key scope is '
              'the pair (purpose, coin type), an owner records account, scope and whether the private key is held; candidates = credits of the requested '
